@@ -39,7 +39,10 @@ CONSTANTS MaxParams,     \* named parameters per signature
           Task,          \* "sig" | "inline"
           MaxSites,      \* call sites per program (Task = "inline")
           Uses,          \* how the body uses a parameter: subset of {"plain", "tight", "reassign"}
-          Cxs            \* subset of BOOLEAN: arguments written as compound expressions `h + k`
+          Cxs,           \* subset of BOOLEAN: arguments written as compound expressions `h + k`
+          Hosts,         \* subset of BOOLEAN: a site's own scope has a live local named like a local
+                         \*   of the inlined body
+          Dups           \* subset of BOOLEAN: a site may repeat the call text of site 1
 
 PNames == <<"a", "b", "c">>
 XNames == {"x", "y"}          \* keyword names that no signature declares
@@ -172,11 +175,14 @@ VARIABLES sig0,    \* signature before
           shownL,  \* defect model, textual splice / reassigned parameter only
           carry,   \* parameter maps of the two generators (defect model only)
           stale,   \* sites at which the carried map differs from the site's own binding
+          hostval, \* [site -> value of the host scope's own local after the request | 0 = none]
+          hostvalC,\* the same in the defect model "generated body cached by call text"
+          cache,   \* per generator: set of [c, vb, renamed] bodies generated so far (defect model)
           todo,    \* sites still to be visited, in rope's visiting order
           defgone  \* definition removed
 
-vars == <<sig0, sig, calls, exp, expl, chg, sites, opt, shown, shownD, shownS, shownL, carry, stale, todo, defgone>>
-inlvars == <<sites, opt, shown, shownD, shownS, shownL, carry, stale, todo, defgone>>
+vars == <<sig0, sig, calls, exp, expl, chg, sites, opt, shown, shownD, shownS, shownL, carry, stale, hostval, hostvalC, cache, todo, defgone>>
+inlvars == <<sites, opt, shown, shownD, shownS, shownL, carry, stale, hostval, hostvalC, cache, todo, defgone>>
 sigvars == <<calls, exp, expl, chg>>
 
 Changer(op, i, perm, auto, d, v) == [op |-> op, i |-> i, perm |-> perm, auto |-> auto, d |-> d, v |-> v]
@@ -292,10 +298,27 @@ SigNext ==
 (* shownS = shared map only, shownL = splice / reassign only, shownD =      *)
 (* both; the harness accepts a deviation as a known finding only when the  *)
 (* observed output equals exactly one of these predictions.                *)
+(*                                                                         *)
+(* Scopes and names.  Every site sits in a scope of its own; h says that   *)
+(* this scope has a live local named like a local of the inlined body      *)
+(* (value HostVal, read again after the call), so the inlined locals must  *)
+(* be kept apart from it at THIS site, whatever was generated for other    *)
+(* sites.  dup says that the site repeats the call text of site 1 (same    *)
+(* call shape, same argument values), so two sites can be textually        *)
+(* identical while their scopes differ.  HostLocalsKept: the host's local  *)
+(* has its own value after the request.  hostvalC / cache model a body     *)
+(* generated once per call text and reused (renamed or not as the first    *)
+(* such site needed): it must violate HostLocalsKept (sensitivity).        *)
 InlineSigs == { s \in Sigs : ~s.va /\ ~s.kw /\ s.ko = 0 }
 AsPairs(m) == { <<name, m[name]>> : name \in DOMAIN m }
-\* argument values are made site-unique: the k-th argument of site i is 100*i + k
-SV(i, v) == IF v < 10 THEN 100 * i + v ELSE v
+\* argument values are site-unique unless the site repeats the text of site 1:
+\* the k-th argument of site i is 100*VB(i) + k
+VB(i) == IF sites[i].dup THEN 1 ELSE i
+SV(i, v) == IF v < 10 THEN 100 * VB(i) + v ELSE v
+HostVal(i) == IF sites[i].h THEN 900 + i ELSE 0
+\* sites whose call text is identical (same shape, same values) and that the same generator handles
+Twins == { <<i, j>> \in (DOMAIN sites) \X (DOMAIN sites) :
+             i < j /\ sites[i].c = sites[j].c /\ VB(i) = VB(j) /\ sites[i].m = sites[j].m }
 DefaultMap(s) == [name \in Names(s) |-> s.ps[Idx(s, name)].d]
 ParMap(s, c, i) == [name \in Names(s) |-> SV(i, ValOf(s, c, Idx(s, name)))]
 SiteBinding(i) == AsPairs(ParMap(sig, sites[i].c, i))
@@ -328,6 +351,13 @@ InlineCall ==
         /\ shownL' = [shownL EXCEPT ![s] = ShowMapD(ParMap(sig, sites[s].c, s))]
         /\ carry' = [carry EXCEPT ![g] = m2]
         /\ stale' = IF m2 # ParMap(sig, sites[s].c, s) THEN stale \cup {s} ELSE stale
+        /\ hostval' = [hostval EXCEPT ![s] = HostVal(s)]
+        /\ LET hit == { e \in cache[g] : e.c = sites[s].c /\ e.vb = VB(s) }
+               renamed == IF hit = {} THEN sites[s].h ELSE (CHOOSE e \in hit : TRUE).renamed
+           IN /\ hostvalC' = [hostvalC EXCEPT ![s] = IF sites[s].h /\ ~renamed THEN 1 ELSE HostVal(s)]
+              /\ cache' = IF hit = {}
+                          THEN [cache EXCEPT ![g] = @ \cup {[c |-> sites[s].c, vb |-> VB(s), renamed |-> sites[s].h]}]
+                          ELSE cache
   /\ todo' = Tail(todo)
   /\ defgone' = (opt.remove /\ todo' = <<>>)
   /\ UNCHANGED <<sig0, sig, sites, opt>>
@@ -341,7 +371,7 @@ VisitOrder(ss, tg) == SelectSeq([i \in 1..Len(ss) |-> i], LAMBDA i : i \in tg)
 ---------------------------------------------------------------------------
 NoInline ==
   /\ sites = <<>> /\ opt = [remove |-> FALSE, only |-> FALSE, cur |-> 0, use |-> "plain", cx |-> FALSE]
-  /\ shown = <<>> /\ shownD = <<>> /\ shownS = <<>> /\ shownL = <<>> /\ carry = <<>> /\ stale = {} /\ todo = <<>> /\ defgone = FALSE
+  /\ shown = <<>> /\ shownD = <<>> /\ shownS = <<>> /\ shownL = <<>> /\ carry = <<>> /\ stale = {} /\ hostval = <<>> /\ hostvalC = <<>> /\ cache = <<>> /\ todo = <<>> /\ defgone = FALSE
 
 InitSig ==
   /\ Task = "sig"
@@ -354,7 +384,7 @@ InitSig ==
   /\ NoInline
 
 SiteSeqs(s) ==
-  UNION { [1..k -> [c : AllCalls(s), m : {1, 2}]] : k \in 1..MaxSites }
+  UNION { [1..k -> [c : AllCalls(s), m : {1, 2}, h : Hosts, dup : Dups]] : k \in 1..MaxSites }
 
 InitInline ==
   /\ Task = "inline"
@@ -363,6 +393,8 @@ InitInline ==
   /\ calls = <<>> /\ exp = <<>> /\ expl = <<>> /\ chg = <<>>
   /\ sites \in SiteSeqs(sig0)
   /\ \A i, j \in DOMAIN sites : (i < j) => sites[i].m <= sites[j].m    \* numbered module by module
+  /\ ~sites[1].dup
+  /\ \A i \in DOMAIN sites : sites[i].dup => sites[i].c = sites[1].c  \* a repeat of site 1's call text
   /\ \E rm \in BOOLEAN, only \in BOOLEAN, cur \in DOMAIN sites, use \in Uses, cx \in Cxs :
         /\ (~only => cur = 1)
         \* legal request: asking to remove the definition while inlining only one
@@ -375,6 +407,9 @@ InitInline ==
   /\ shownL = [i \in DOMAIN sites |-> {}]
   /\ carry = <<DefaultMap(sig0), DefaultMap(sig0)>>
   /\ stale = {}
+  /\ hostval = [i \in DOMAIN sites |-> HostVal(i)]
+  /\ hostvalC = [i \in DOMAIN sites |-> HostVal(i)]
+  /\ cache = <<{}, {}>>
   /\ todo = VisitOrder(sites, IF opt.only THEN {opt.cur} ELSE DOMAIN sites)
   /\ defgone = FALSE
 
@@ -418,6 +453,12 @@ SitesIndependentD ==
     \A s \in DOMAIN sites :
       (s \in Targets /\ ~(\E k \in DOMAIN todo : todo[k] = s)) =>
          shownD[s] = { <<e[1], Printed(opt.use, SV(s, e[2]))>> : e \in Binding(sig, sites[s].c).par }
+\* the host scope's own local keeps its value at every site, inlined or not
+HostLocalsKept ==
+  Task = "inline" => \A s \in DOMAIN sites : hostval[s] = HostVal(s)
+\* defect model "body cached by call text" (must be violated: sensitivity)
+HostLocalsKeptC ==
+  Task = "inline" => \A s \in DOMAIN sites : hostvalC[s] = HostVal(s)
 NoDanglingCall ==
   (Task = "inline" /\ defgone) => \A s \in DOMAIN sites : s \in Targets
 =============================================================================
